@@ -9,8 +9,8 @@ import pickle
 from .common import add_failure, bump, load_known, new_outcome
 
 PROP = "C10"
-PROPS_FILES = ["CogentModel/Props/C10.lean", "CogentModel/Props/C10Tree.lean"]
-LEAN_TARGETS = ["CogentModel.Props.C10", "CogentModel.Props.C10Tree"]
+PROPS_FILES = ["CogentModel/Props/C10.lean", "CogentModel/Props/C10Tree.lean", "CogentModel/Props/C10Registry.lean"]
+LEAN_TARGETS = ["CogentModel.Props.C10", "CogentModel.Props.C10Tree", "CogentModel.Props.C10Registry"]
 DRIVER = "drv_c10"
 TRUSTED = [
     "hand-written model lean/CogentModel/Model/RichDict.lean of SeqView.to_rich_dict/from_rich_dict/copy(sliced=True), "
@@ -22,6 +22,10 @@ TRUSTED = [
     "tokenising of names is not modelled; tied each run on real trees whose names need no quoting, incl. duplicate / reserved / None names",
     "the per-type OBSERVATION functions of harness/c10_gen.py define what 'observationally equal' means",
     "json, pickle, numpy, sqlite3 are used, not modelled",
+    "translator/c10_registry2lean.py (ast only): every @register_deserialiser line, the dispatch loop of deserialise_object and the "
+    "classes that write \"type\": get_object_provenance(self) (with their subclasses) -> Gen/C10Registry.lean; tied each run to the live "
+    "registry (per-module sequences, functions), the live classes (provenance, __subclasses__ closure), the real loop run over stub "
+    "functions on emitted / perturbed strings, and the type strings live objects write",
 ]
 ASSUMPTIONS = [
     "the registry sweep (all types x histories x routes) is decided on the implementation by the round-trip oracle; only the "
@@ -32,6 +36,13 @@ ASSUMPTIONS = [
 ]
 
 ROUTES = ("json", "rich", "pickle", "copy", "deepcopy", "file")
+
+
+def generate(ctx):
+    """translator step (wave 2): registry / dispatch loop / emitted type strings -> Gen/C10Registry.lean"""
+    from . import c10_registry
+
+    return c10_registry.generate(ctx)
 
 
 # --------------------------------------------------------------------------
@@ -604,6 +615,10 @@ def correspondence(ctx):
                 out["nontrivial"].add((cmd, json.dumps(rq, sort_keys=True)))
         elif "err" in real or rq.get("gap_pos") or rq.get("spans"):
             out["nontrivial"].add((cmd, json.dumps(rq, sort_keys=True)))
+    # wave 2: translated registry / dispatch loop / emitted type strings vs the live package
+    from . import c10_registry
+
+    c10_registry.registry_corr(ctx, out)
     return out
 
 
